@@ -16,7 +16,7 @@ from . import c02
 
 PROPERTY = "C16"
 LEVEL = "exploration"
-BUDGET = {"quick": 170, "thorough": 2400}
+BUDGET = {"quick": 170, "thorough": 3000}
 ASSUMPTIONS = [
     "the matching relation used by the monitor is issubclass on the wrapped types, i.e. funsor's own deep_issubclass; its axioms "
     "(reflexive, transitive, agreement with isinstance) are checked separately on the reached type pool",
@@ -26,7 +26,7 @@ ASSUMPTIONS = [
 
 
 def plan(seed, tier):
-    nprog = 1600 if tier == "quick" else 16000
+    nprog = 1600 if tier == "quick" else 48000
     ngen = 16
     jobs = []
     for g in range(ngen):
